@@ -153,7 +153,9 @@ class ExprMixin:
             return ('true' if e.val else 'false'), BOOL
         if e.lit == 'str':
             return lean_str(e.val), STR
-        self.fail('%s literal is not supported (f64 / char are out of scope)' % e.lit, e.line)
+        if e.lit == 'char':
+            return lean_char(e.val), ('char',)
+        self.fail('%s literal is not supported (f64 is out of scope)' % e.lit, e.line)
 
     def ex_Path(self, e, want=None):
         segs = e.segs
@@ -171,11 +173,19 @@ class ExprMixin:
                 return 'some', ('fn', (a,), ('opt', a))
             if name in NEWTYPES:
                 return '(fun x => x)', ('fn', (NEWTYPE_INNER[NEWTYPES[name][0]],), NEWTYPES[name])
+            if name in self.tr.crate.consts and not self.local_fns.get(name):
+                return self.tr.const_sig(self.tr.crate.consts[name], self)
+            var = self.resolve_variant([name])
+            if var is not None:
+                return self.variant_value(var, e.line)
             sig = self.resolve_free(name, e.line, must=False)
             if sig is not None:
                 return self.fn_value(sig, e.line)
             self.fail('unknown name `%s`' % name, e.line)
         names = [s for s, _ in segs]
+        var = self.resolve_variant(names)
+        if var is not None:
+            return self.variant_value(var, e.line)
         if len(names) == 2 and names[0] == 'ErrorKind' and names[1] in ('UnexpectedEof', 'Interrupted', 'WriteZero', 'Other'):
             return 'Rust.ErrorKind.' + names[1][0].lower() + names[1][1:], ('errkind',)
         if len(names) == 2 and names[0] == 'Ordering' and names[1] in ('Less', 'Equal', 'Greater'):
@@ -190,6 +200,13 @@ class ExprMixin:
         if sig is None:
             self.fail('unknown path `%s`' % '::'.join(names), e.line)
         return self.fn_value(sig, e.line)
+
+    def variant_value(self, var, line):
+        key, vname, kind, fields = var
+        ctor = '%s.%s' % (key, lean_ident(vname))
+        if kind == 'unit':
+            return ctor, ('enum', key)
+        return ctor, ('fn', tuple(t for _, t in fields), ('enum', key))
 
     def fn_value(self, sig, line):
         if sig.monadic or sig.fuel or sig.mut_idx():
@@ -270,10 +287,18 @@ class ExprMixin:
             t, ty = self.ex(e.obj)
             bt = res(ty)
             if bt[0] not in ('vec', 'iter'): self.fail('range indexing on %r' % (bt,), e.line)
+            if r.incl: self.fail('inclusive range indexing is not supported', e.line)
             if r.lo is not None and r.hi is None:
                 lo, _ = self.ex(r.lo)
                 return self.m('Rust.sliceFrom %s %s' % (par(t), par(lo))), ('vec', bt[1])
-            self.fail('only `slice[lo..]` range indexing is supported', e.line)
+            if r.lo is None and r.hi is not None:
+                hi, _ = self.ex(r.hi)
+                return self.m('Rust.sliceTo %s %s' % (par(t), par(hi))), ('vec', bt[1])
+            if r.lo is not None and r.hi is not None:
+                lo, _ = self.ex(r.lo)
+                hi, _ = self.ex(r.hi)
+                return self.m('Rust.sliceRange %s %s %s' % (par(t), par(lo), par(hi))), ('vec', bt[1])
+            return t, ('vec', bt[1])
         pl = self.try_place(e)
         if pl is not None:
             return pl.get(), pl.ty
@@ -527,6 +552,16 @@ class ExprMixin:
             self.eff += 1
             self.emit('if %s then Outcome.panic %s' % (cond, lean_str('assertion failed: ' + src)))
             return '()', UNIT
+        if name == 'matches':
+            s, sty = self.ex(e.args[0])
+            self.push()
+            try:
+                p = self.pat(e.pat, sty, wild=True)
+            finally:
+                self.pop()
+            return '(match %s with | %s => true | _ => false)' % (s, p), BOOL
+        if name in ('write', 'writeln'):
+            return self.write_macro(e)
         if name == 'vec':
             if e.repeat is not None:
                 x, xt = self.ex(e.args[0])
@@ -546,6 +581,8 @@ class ExprMixin:
                 for a, piece in zip(e.args[1:], pieces[1:]):
                     t, ty = self.ex(a)
                     ty = res(ty)
+                    if not isinstance(ty, TVar) and ty[0] in ('enum', 'bdd'):
+                        t, ty = self.display_to_string(t, ty, e.line), STR
                     if isinstance(ty, TVar) or ty[0] not in ('int', 'str', 'var', 'ptr'):
                         self.fail('format! argument of type %r' % (ty,), e.line)
                     out.append(t if ty[0] == 'str' else 'toString %s' % par(t))
@@ -553,6 +590,111 @@ class ExprMixin:
                 return ' ++ '.join(par(x) for x in out), STR
             return lean_str(tmpl), STR
         self.fail('macro `%s!` is not supported' % name, e.line)
+
+    # ------------------------------------------------------------------------------------------ write! / Display
+    def display_sig(self, ty, line):
+        """signature of `<T as Display>::fmt` for a crate type"""
+        ty = res(ty)
+        owner = OWNER_OF_TAG.get(ty[0]) or (ty[1] if ty[0] in ('enum', 'struct') else None)
+        cands = [c for c in self.tr.crate.methods.get((owner, 'fmt'), []) if c.trait == 'Display']
+        if len(cands) != 1:
+            self.fail('no (unique) `impl Display` for %r' % (deep(ty),), line)
+        return self.tr.sig_of(cands[0], self, line), cands[0]
+
+    def newtype_displays_number(self, ty, line):
+        """`impl Display for BddVariable/BddPointer` must be exactly `f.write_fmt(format_args!("{}", self.0))`"""
+        owner = OWNER_OF_TAG[res(ty)[0]]
+        cands = [c for c in self.tr.crate.methods.get((owner, 'fmt'), []) if c.trait == 'Display']
+        if len(cands) != 1: self.fail('no `impl Display` for %s' % owner, line)
+        c = cands[0]
+        text = ' '.join(str(t.val[0]) if t.kind == 'int' else str(t.val) for t in c.toks[c.start:c.end])
+        if '{ f . write_fmt ( format_args ! ( {} , self . 0 ) ) }' not in text:
+            self.fail('`impl Display for %s` is not the plain decimal printer the translator assumes' % owner, line)
+
+    def display_to_string(self, term, ty, line):
+        """`x.to_string()` / `format!("{}", x)` for a crate type with a Display impl"""
+        if self.pure: raise NotPure()
+        sig, item = self.display_sig(ty, line)
+        head = sig.lean
+        if sig.fuel:
+            self.uses_fuel = True
+            head += ' fuel'
+        r, out = self.tmp('res'), self.tmp('str')
+        call = '%s %s ""' % (head, par(term))
+        self.emit('let (%s, %s) := %s' % (r, out, self.m(call) if sig.monadic else call))
+        self.eff += 1
+        self.emit('if let .error _ := %s then Outcome.panic "a Display implementation returned an error unexpectedly"' % r)
+        return out
+
+    def fmt_pieces(self, e):
+        tmpl = e.args[1]
+        if tmpl.kind != 'Lit' or tmpl.lit != 'str':
+            self.fail('%s! needs a literal format string' % e.name, e.line)
+        text = tmpl.val + ('\n' if e.name == 'writeln' else '')
+        pieces, cur, i, nargs = [], '', 0, 0
+        while i < len(text):
+            if text.startswith('{{', i): cur += '{'; i += 2
+            elif text.startswith('}}', i): cur += '}'; i += 2
+            elif text.startswith('{}', i):
+                if cur: pieces.append(('lit', cur)); cur = ''
+                pieces.append(('arg', nargs)); nargs += 1; i += 2
+            elif text[i] in '{}':
+                self.fail('only plain `{}` placeholders are supported in %s!' % e.name, e.line)
+            else:
+                cur += text[i]; i += 1
+        if cur: pieces.append(('lit', cur))
+        if nargs != len(e.args) - 2:
+            self.fail('%s!: %d placeholder(s) but %d argument(s)' % (e.name, nargs, len(e.args) - 2), e.line)
+        return pieces
+
+    def write_macro(self, e):
+        """`write!(sink, "…{}…", args)`: one `write_str` / `write_all` per literal piece and per argument (std's `write_fmt`)"""
+        if self.pure: raise NotPure()
+        pl = self.try_place(e.args[0])
+        if pl is None: self.fail('%s! needs a place as its sink' % e.name, e.line)
+        st = res(pl.ty)
+        if st not in (('fmtr',), ('writer',)):
+            self.fail('%s! into a sink of type %r' % (e.name, deep(st)), e.line)
+        rty = res(self.sig.ret)
+        errt = ('fmterr',) if st == ('fmtr',) else ('ioerr',)
+        if isinstance(rty, TVar) or rty[0] != 'result' or res(rty[2]) != errt:
+            self.fail('%s! is only supported in a function returning Result<_, %s> (its error is returned at once)' % (e.name, errt[0]), e.line)
+        for kind, v in self.fmt_pieces(e):
+            if kind == 'lit':
+                text = lean_str(v)
+            else:
+                a = e.args[2 + v]
+                t, ty = self.ex(a)
+                ty = res(ty)
+                if isinstance(ty, TVar): self.fail('cannot infer the type of a %s! argument' % e.name, e.line)
+                if ty[0] == 'str': text = t
+                elif ty[0] == 'int': text = 'toString %s' % par(t)
+                elif ty[0] == 'bool': text = '(if %s then "true" else "false")' % t
+                elif ty[0] in ('var', 'ptr'):
+                    self.newtype_displays_number(ty, e.line)
+                    text = 'toString %s' % par(t)
+                elif ty[0] in ('enum', 'bdd', 'struct'):
+                    if st != ('fmtr',): self.fail('Display of %r into an io sink' % (deep(ty),), e.line)
+                    sig, item = self.display_sig(ty, e.line)
+                    r, _ = self.call_sig(sig, [('done', t, ty), ('done', pl.get(), pl.ty, pl)], e.line)
+                    pl._cache = None
+                    self.emit('if let .error e__ := %s then return %s' % (r, self.ret_term('(.error e__)')))
+                    continue
+                else:
+                    self.fail('%s! argument of type %r' % (e.name, deep(ty)), e.line)
+            if st == ('fmtr',):
+                pl._cache = None
+                pl.set('%s ++ %s' % (par(pl.get()), par(text)))
+            else:
+                r, w = self.tmp('res'), self.tmp('wr')
+                pl._cache = None
+                self.emit('let (%s, %s) := Rust.writeAll %s (Rust.utf8Bytes %s)' % (r, w, par(pl.get()), par(text)))
+                pl._cache = None
+                pl.set(w)
+                self.emit('if let .error e__ := %s then return %s' % (r, self.ret_term('(.error e__)')))
+        self.eff += 1
+        lt = lean_type(('result', UNIT, errt), self.tr.struct_fields)
+        return '(Except.ok () : %s)' % lt, ('result', UNIT, errt)
 
     # ------------------------------------------------------------------------------------------ calls
     def ex_Call(self, e, want=None):
@@ -608,6 +750,9 @@ class ExprMixin:
                     pa.set(tb)
                     pb.set(ta)
                     return '()', UNIT
+                var = self.resolve_variant([name]) if self.lookup(name) is None else None
+                if var is not None:
+                    return self.variant_call(var, e)
                 if name in NEWTYPES:
                     t, ty = self.ex(e.args[0])
                     if not unify(ty, NEWTYPE_INNER[NEWTYPES[name][0]]):
@@ -616,6 +761,9 @@ class ExprMixin:
                 sig = self.resolve_free(name, e.line, must=True)
                 return self.call_sig(sig, list(e.args), e.line)
             # multi-segment path
+            var = self.resolve_variant(names)
+            if var is not None:
+                return self.variant_call(var, e)
             b = self.builtin_static(names, f.segs, e, want)
             if b is not None:
                 return b
@@ -625,9 +773,29 @@ class ExprMixin:
             return self.call_sig(sig, list(e.args), e.line)
         self.fail('call of a computed function value is not supported', e.line)
 
+    def variant_call(self, var, e):
+        key, vname, kind, fields = var
+        if kind != 'tuple' or len(fields) != len(e.args):
+            self.fail('constructor %s.%s applied to %d argument(s)' % (key, vname, len(e.args)), e.line)
+        parts = []
+        for a, (_, ft) in zip(e.args, fields):
+            t, ty = self.ex(a, want=ft)
+            if t is None: return None, NEVER
+            if not unify(ty, ft):
+                self.fail('argument of %s.%s: expected %r, found %r' % (key, vname, deep(ft), deep(ty)), e.line)
+            parts.append(par(t))
+        return ' '.join(['%s.%s' % (key, lean_ident(vname))] + parts), ('enum', key)
+
     def builtin_static(self, names, segs, e, want):
         head, fn = names[-2], names[-1]
         args = e.args
+        if head == 'Box' and fn == 'new':
+            return self.ex(args[0], want)
+        if head == 'String' and fn == 'new':
+            return '""', STR
+        if head == 'String' and fn == 'from_utf8':
+            t, ty = self.ex(args[0])
+            return 'Rust.stringFromUtf8 %s' % par(t), ('result', STR, ('utf8err',))
         if head == 'Vec' and fn == 'new':
             return '#[]', ('vec', TVar())
         if head == 'Vec' and fn == 'with_capacity':
